@@ -565,15 +565,16 @@ def binop(I, node, op, l, r):
         out.frame = None
         if n == 2:
             out.tags["squared"] = l
+            I.emit("square", node, of=l)
         if r.tag("dim") and not r.known and l.tag("kind") != "int":
             out.tags["pow_by_extent"] = r.tag("dim")      # x ** (number of columns): a length scale raised to an array extent
     if isinstance(op, (ast.Mult, ast.Div)):
         for x_ in (l, r):
             if x_.tag("pow_by_extent"):
                 out.tags["pow_by_extent"] = x_.tag("pow_by_extent")
-    if isinstance(op, ast.Add) and (l.tag("floating") or r.tag("floating")):
+    if isinstance(op, (ast.Add, ast.Sub, ast.Mult, ast.MatMult, ast.Div)) and (l.tag("floating") or r.tag("floating")):
         out.tags["floating"] = True
-        if (r.known and r.const == 0.5) or (l.known and l.const == 0.5):
+        if isinstance(op, ast.Add) and ((r.known and r.const == 0.5) or (l.known and l.const == 0.5)):
             out.tags["plus_half"] = True
     if isinstance(op, (ast.Add, ast.Sub, ast.Mult)) and any(x.tag("arange") or x.tag("affine_grid") for x in (l, r)):
         out.tags["affine_grid"] = True        # start + k·step: the last point is a rounded product, not the requested end
@@ -671,6 +672,13 @@ def attribute(I, e, b):
         out = b.copy(term=mk_term("T", b.term))
         out.shape = transpose_shape(b.shape)
         out.items = None
+        if b.tag("indices_flat") is not None:
+            # (np.indices((2,)*n).reshape(n, 2**n)).T : one row per corner of the n-cube, entries in {0, 1}
+            n_ = b.tag("indices_flat")
+            out.tags.pop("indices_flat", None)
+            out.tags.update(poly={("corner",): 1}, corner_array=True, deg={}, ndim=2)
+            out.shape = Shape([None, as_dim(n_)])
+            I.emit("corner_table", e, result=out, lits=(0.0, 1.0), repeat=n_, complete=True)
         if is_cvx(b):
             out.tags = dict(b.tags, cvx="expr", atom=("T", [b]))
         return out
@@ -869,6 +877,22 @@ def subscript(I, e, b):
     if ci is not None and b.shape is not None and not b.shape.ell and b.shape.axes and b.shape.axes[0] == ("N",) \
             and not I.fr.loops:
         I.emit("const_row_pick", e, base=b, index=ci)
+    if b.shape is not None and b.tag("kind") == "ndarray":
+        for el, ax in _elem_axes(b.shape, _index_elems(e)):
+            if ax is None or ax == ():
+                continue
+            if isinstance(el, ast.Slice):
+                if el.lower is None and el.upper is None and el.step is None:
+                    continue
+                how = "slice"
+            elif isinstance(el, ast.Constant) or (isinstance(el, ast.UnaryOp) and isinstance(el.operand, ast.Constant)):
+                continue
+            else:
+                v = I.ev(el)
+                if v.tag("kind") in ("int", "slice") or const_int(v) is not None:
+                    continue
+                how = "mask" if (v.tag("boolarr") or v.tag("cmp") is not None or v.tag("allany") is not None) else "index array"
+            I.emit("axis_subset", e, base=b, axis=ax, how=how)
     elems = _index_elems(e)
     basic = True
     shape = b.shape
@@ -907,6 +931,33 @@ def subscript(I, e, b):
                 break
         if nd is not None:
             out.tags["ndim"] = nd
+    return out
+
+
+def _elem_axes(shape, elems):
+    """[(index element, name of the axis it applies to or None)] — only where the position is certain"""
+    def _new(el):
+        return (isinstance(el, ast.Constant) and el.value is None) or (isinstance(el, ast.Attribute) and el.attr == "newaxis")
+    def _ell(el):
+        return isinstance(el, ast.Constant) and el.value is Ellipsis
+    axes = list(shape.axes)
+    k = next((i for i, el in enumerate(elems) if _ell(el)), None)
+    out = []
+    left = elems if k is None else elems[:k]
+    right = [] if k is None else elems[k + 1:]
+    if not shape.ell:
+        pos = 0
+        for el in left:
+            if _new(el):
+                continue
+            out.append((el, axes[pos] if pos < len(axes) else None))
+            pos += 1
+    pos = len(axes)
+    for el in reversed(right):
+        if _new(el):
+            continue
+        pos -= 1
+        out.append((el, axes[pos] if pos >= 0 else None))
     return out
 
 
@@ -1388,6 +1439,18 @@ def call_method(I, e, base, attr, args, kws):
             out.refs = frozenset({obj.id})
             return out
         if attr in ("items", "keys", "values"):
+            kw = base.tag("kw")
+            if kw is not None and 0 < len(kw) <= 6 and not args:
+                # a literal table with string keys: the view is the fixed sequence of its entries (loops over it are unrolled)
+                if attr == "items":
+                    its = [Val(items=[const(k), v], tags={"kind": "tuple"}) for k, v in kw.items()]
+                elif attr == "keys":
+                    its = [const(k) for k in kw]
+                else:
+                    its = list(kw.values())
+                out = mk([base], tags={"kind": "list", "nonempty": True})
+                out.items = its
+                return out
             return mk([base])
     if kind == "str" or (base.known and isinstance(base.const, str)):
         return mk([base] + args, tags={"kind": "str"})
